@@ -1579,6 +1579,23 @@ int QSexact_solver (mpq_QSdata * p_mpq,
 					last_status = *status = QS_LP_UNSOLVED;
 				}
 			}
+			else if (*status == QS_LP_OPTIMAL)
+			{
+				/* the basis is optimal in rational arithmetic: certify and return it
+				 * instead of leaving an untested OPTIMAL in *status */
+				mpq_EGlpNumFreeArray (y_mpq);
+				x_mpq = mpq_EGlpNumAllocArray (p_mpq->qslp->ncols);
+				y_mpq = mpq_EGlpNumAllocArray (p_mpq->qslp->nrows);
+				EGcallD(mpq_QSget_x_array (p_mpq, x_mpq));
+				EGcallD(mpq_QSget_pi_array (p_mpq, y_mpq));
+				if (QSexact_optimal_test (p_mpq, x_mpq, y_mpq, basis))
+				{
+					optimal_output (p_mpq, x, y, x_mpq, y_mpq);
+					goto CLEANUP;
+				}
+				last_status = *status = QS_LP_UNSOLVED;
+				mpq_EGlpNumFreeArray (x_mpq);
+			}
 		}
 		mpq_EGlpNumFreeArray (y_mpq);
 		break;
@@ -1746,6 +1763,22 @@ int QSexact_solver (mpq_QSdata * p_mpq,
 						last_status = *status = QS_LP_UNSOLVED;
 					}
 				}
+				else if (*status == QS_LP_OPTIMAL)
+				{
+					/* see the double precision stage above */
+					mpq_EGlpNumFreeArray (y_mpq);
+					x_mpq = mpq_EGlpNumAllocArray (p_mpq->qslp->ncols);
+					y_mpq = mpq_EGlpNumAllocArray (p_mpq->qslp->nrows);
+					EGcallD(mpq_QSget_x_array (p_mpq, x_mpq));
+					EGcallD(mpq_QSget_pi_array (p_mpq, y_mpq));
+					if (QSexact_optimal_test (p_mpq, x_mpq, y_mpq, basis))
+					{
+						optimal_output (p_mpq, x, y, x_mpq, y_mpq);
+						goto CLEANUP;
+					}
+					last_status = *status = QS_LP_UNSOLVED;
+					mpq_EGlpNumFreeArray (x_mpq);
+				}
 			}
 			mpq_EGlpNumFreeArray (y_mpq);
 			break;
@@ -1764,6 +1797,10 @@ int QSexact_solver (mpq_QSdata * p_mpq,
 		mpf_QSfree_prob (p_mpf);
 		p_mpf = 0;
 	}
+	/* every OPTIMAL / INFEASIBLE that passed its exact test has left through
+	 * CLEANUP; what is left in *status here is floating point opinion only */
+	if (*status == QS_LP_OPTIMAL || *status == QS_LP_INFEASIBLE)
+		*status = QS_LP_UNSOLVED;
 	/* ending */
 CLEANUP:
 	dbl_EGlpNumFreeArray (x_dbl);
